@@ -25,6 +25,7 @@ func c03CorrTemplates(ctx *Ctx) error {
 		var m struct {
 			Params []string `json:"params"`
 			Chi    string   `json:"chi"`
+			Std    string   `json:"std"`
 			Colon  string   `json:"colon"`
 			Fmt    string   `json:"fmt"`
 		}
@@ -41,10 +42,13 @@ func c03CorrTemplates(ctx *Ctx) error {
 		if Canon(orEmpty(impl)) != Canon(mp) {
 			ctx.Res.Disagree("CORR orderedParams (Model/Paths.lean scan vs pathParamRE)", J{"uri": s}, mp, impl)
 		}
-		for name, f := range map[string]func(string) string{"chi": codegen.SwaggerUriToChiUri, "gorilla": codegen.SwaggerUriToGorillaUri, "stdhttp": codegen.SwaggerUriToStdHttpUri} {
+		for name, f := range map[string]func(string) string{"chi": codegen.SwaggerUriToChiUri, "gorilla": codegen.SwaggerUriToGorillaUri} {
 			if got := f(s); got != unhx(m.Chi) {
 				ctx.Res.Disagree("CORR translate {name} ("+name+")", J{"uri": s}, unhx(m.Chi), got)
 			}
+		}
+		if got := codegen.SwaggerUriToStdHttpUri(s); got != unhx(m.Std) {
+			ctx.Res.Disagree("CORR translate {name}, {$} after a final slash (stdhttp)", J{"uri": s}, unhx(m.Std), got)
 		}
 		for name, f := range map[string]func(string) string{"echo": codegen.SwaggerUriToEchoUri, "gin": codegen.SwaggerUriToGinUri, "fiber": codegen.SwaggerUriToFiberUri, "iris": codegen.SwaggerUriToIrisUri} {
 			if got := f(s); got != unhx(m.Colon) {
@@ -283,6 +287,19 @@ func c03Doc(r *Rng, adversarial bool) ([]rOp, J) {
 			add(sib)
 		}
 	}
+	// a trailing slash is part of the path: some templates end in one (modelled as a last, empty static segment),
+	// unless the same template without it is present too (fiber and gin treat the two alike unless configured otherwise)
+	for i, t := range tpls {
+		if !r.Chance(20) {
+			continue
+		}
+		k := Canon(append(append(tpl{}, t...), rSeg{false, ""}))
+		if seen[k] {
+			continue
+		}
+		seen[k] = true
+		tpls[i] = append(append(tpl{}, t...), rSeg{false, ""})
+	}
 	// consistency of variable names per position prefix: rename to depth names unless adversarial
 	var ops []rOp
 	paths := J{}
@@ -312,10 +329,18 @@ func c03Doc(r *Rng, adversarial bool) ([]rOp, J) {
 			}
 		}
 		shuffle(r, pl)
+		// some path-level declarations are overridden by every operation of the path with another type: the
+		// path-level one (integer) must never take effect, the values sent are not numbers
+		overridden := map[string]bool{}
 		if len(pl) > 0 {
 			ps := []interface{}{}
 			for _, v := range pl {
-				ps = append(ps, J{"name": v, "in": "path", "required": true, "schema": J{"type": "string"}})
+				ty := "string"
+				if r.Chance(50) {
+					overridden[v] = true
+					ty = "integer"
+				}
+				ps = append(ps, J{"name": v, "in": "path", "required": true, "schema": J{"type": ty}})
 			}
 			pi["parameters"] = ps
 		}
@@ -325,7 +350,7 @@ func c03Doc(r *Rng, adversarial bool) ([]rOp, J) {
 			id++
 			var ol []string
 			for _, v := range vars {
-				if !contains(pl, v) || r.Chance(30) { // sometimes overriding the path-level one
+				if !contains(pl, v) || overridden[v] || r.Chance(30) { // sometimes overriding the path-level one
 					ol = append(ol, v)
 				}
 			}
@@ -465,6 +490,11 @@ func runC03(ctx *Ctx) error {
 			reqs = append(reqs, reqT{o.Method, segs, "match"})
 			wm := c03Methods[r.Intn(len(c03Methods))]
 			reqs = append(reqs, reqT{wm, segs, "method"})
+			if last := o.Segs[len(o.Segs)-1]; !last.Var && last.S == "" {
+				// a template ending in a slash: only the exact path is asked for (whether /a and /a/ are told apart is the
+				// router's configuration, not the generated code's)
+				continue
+			}
 			reqs = append(reqs, reqT{o.Method, append(append([]string{}, segs...), "extra"), "extra-segment"})
 			if len(segs) > 1 {
 				reqs = append(reqs, reqT{o.Method, segs[:len(segs)-1], "missing-segment"})
@@ -549,6 +579,12 @@ func runC03(ctx *Ctx) error {
 						sig := fmt.Sprintf("route:%s:%s:%s:%s", fw, rq.kind, cls, rq.method)
 						if advPath(dt.ops, wantID, gotID) {
 							sig += ":advname"
+						}
+						for _, o := range dt.ops {
+							if last := o.Segs[len(o.Segs)-1]; (o.ID == wantID || o.ID == gotID) && !last.Var && last.S == "" {
+								sig += ":trailing-slash"
+								break
+							}
 						}
 						ctx.Res.Violate(sig, fmt.Sprintf("%s %s %s: handler %q args %v; the document prescribes %q args %v", fw, rq.method, u, gotID, gotBind, wantID, wantBind),
 							J{"doc": dt.doc, "case": c, "resp": resp})
